@@ -1,16 +1,27 @@
 (* C11 - Reads report exactly the state produced by the successful writes.
    view (Model/Reads.v) = the read handlers on the database; spec_view / abs (Spec/ApiSpec.v) = the
    reads on the abstract state (usages, roots, totals derived). *)
-From PV Require Import Proofs.Defs Spec.ApiSpec Proofs.C11.
+From PV Require Import Proofs.Defs Spec.ApiSpec Proofs.C11 Proofs.C11n.
+From PV Require Proofs.C19.
 
-(* every read, at every microversion, reports what the reference semantics computes from the
-   abstraction of the database, provided the stored records do not dangle (RI, C08), the provider
-   hierarchy is a forest with correct root pointers (Forest, C09) and consumer uuids are unique *)
+(* every read (thirteen routes: nine about providers / consumers / usages, GET /traits with its
+   name=in: and associated= filters, GET /traits/{name}, GET /resource_classes,
+   GET /resource_classes/{name}), at every microversion, reports what the reference semantics computes
+   from the abstraction of the database, provided the stored records do not dangle (RI, C08), the
+   provider hierarchy is a forest with correct root pointers (Forest, C09) and consumer uuids are
+   unique.  One read needs one more fact: GET /traits?associated=true is a JOIN .. DISTINCT and lists a
+   name once only if the traits table holds it once (traits_unique; needs_unique_traits q is false for
+   every other query, so for them the statement is the one proved before) *)
 Theorem C11_reads_refine :
   forall d, RI d -> Forest d -> NoDup (map c_uuid (consumers d)) ->
-  forall q v, view q v d = spec_view q v (abs d).
+  forall q v, (needs_unique_traits q = true -> traits_unique d) -> view q v d = spec_view q v (abs d).
 Proof. exact c11_reads_refine. Qed.
 Print Assumptions C11_reads_refine.
+
+(* trait names are unique in every state the API can produce (any requests, well-formed or not) *)
+Theorem C11_traits_unique : forall cf l, traits_unique (run cf db0 l).
+Proof. exact c11_traits_unique. Qed.
+Print Assumptions C11_traits_unique.
 
 (* consumer uuids are unique in every state the API can produce (any requests, well-formed or not) *)
 Theorem C11_consumers_unique : forall cf l, NoDup (map c_uuid (consumers (run cf db0 l))).
@@ -18,7 +29,7 @@ Proof. exact c11_consumers_unique. Qed.
 Print Assumptions C11_consumers_unique.
 
 (* ... hence after any sequence of well-formed requests every read equals the reference semantics
-   (RI by C08.run_RI, Forest by C09.c09_invariant, uniqueness by the theorem above) *)
+   (RI by C08.run_RI, Forest by C09.c09_invariant, uniqueness by the two theorems above) *)
 Theorem C11_reads_refine_reachable :
   forall cf l q v, reqs_wf l -> view q v (run cf db0 l) = spec_view q v (abs (run cf db0 l)).
 Proof. exact c11_reads_refine_reachable. Qed.
@@ -54,7 +65,9 @@ Theorem C11_views_agree :
 Proof. exact c11_views_agree. Qed.
 Print Assumptions C11_views_agree.
 
-(* reads depend on the core tables only *)
+(* reads depend on the core tables only; core_eq (Proofs/Defs.v) compares every table but projects /
+   users / consumer_types, so the tables behind the class and trait reads (resource_classes, traits,
+   resource_provider_traits) are core and the statement covers those reads as it stands *)
 Theorem C11_view_core_eq : forall d d' q v, core_eq d d' -> view q v d = view q v d'.
 Proof. exact c11_view_core_eq. Qed.
 Print Assumptions C11_view_core_eq.
@@ -77,6 +90,17 @@ Theorem C11_read_after_write_traits :
     forall t, In [t] (rv_rows (view (QRpTraits u) v' d')) <-> In t ts.
 Proof. exact c11_raw_traits. Qed.
 Print Assumptions C11_read_after_write_traits.
+
+(* ... and GET /traits lists each of them as associated (with or without a name filter that admits
+   it) and not as unassociated *)
+Theorem C11_read_after_write_traits_associated :
+  forall cf d v u g ts d' rs v' t,
+    step cf d (TraitsSet v u g ts) = (d', rs) -> is_success rs -> 6 <= v' -> In t ts ->
+    forall names, names_ok names t ->
+      In [t] (rv_rows (view (QTraits names (Some true)) v' d')) /\
+      ~ In [t] (rv_rows (view (QTraits names (Some false)) v' d')).
+Proof. exact c11_raw_traits_associated. Qed.
+Print Assumptions C11_read_after_write_traits_associated.
 
 (* ... an accepted aggregate replacement: exactly the requested set *)
 Theorem C11_read_after_write_aggregates :
@@ -126,6 +150,110 @@ Theorem C11_read_after_write_consumer_attrs :
       (38 <= req_version r -> 38 <= v' -> exists g, tl = [g; oz (ci_type c)]).
 Proof. exact c11_raw_consumer_attrs. Qed.
 Print Assumptions C11_read_after_write_consumer_attrs.
+
+(* ---------------------------------------------------------------- classes and traits *)
+(* what GET /traits lists, from 1.6: a trait is listed iff it exists (standard, or created and not
+   deleted), is among the names asked for, and is / is not carried by a provider when `associated`
+   is given.  names_ok names t := names = None or t is in the list; assoc_ok d assoc t := assoc = None,
+   or (true) some (u, t) is in resource_provider_traits, or (false) none is *)
+Theorem C11_traits_listed_iff :
+  forall d v names assoc t, 6 <= v ->
+    (In [t] (rv_rows (view (QTraits names assoc) v d)) <->
+     trait_exists d t = true /\ names_ok names t /\ assoc_ok d assoc t).
+Proof. exact c11_traits_listed_iff. Qed.
+Print Assumptions C11_traits_listed_iff.
+
+(* GET /traits/{t}: 204 iff the trait exists *)
+Theorem C11_trait_show :
+  forall d v t, 6 <= v -> view (QTrait t) v d = if trait_exists d t then mkView 204 [] [] else v_404.
+Proof. exact c11_trait_show. Qed.
+Print Assumptions C11_trait_show.
+
+(* GET /resource_classes lists exactly the existing classes (class_exists d n := n is a standard name
+   or the name of a row of resource_classes); GET /resource_classes/{n} answers 200 with the name iff
+   the class exists *)
+Theorem C11_classes_listed_iff :
+  forall d v n, 2 <= v -> (In [n] (rv_rows (view QClasses v d)) <-> class_exists d n = true).
+Proof. exact c11_classes_listed_iff. Qed.
+Print Assumptions C11_classes_listed_iff.
+
+Theorem C11_class_show :
+  forall d v n, 2 <= v -> view (QClass n) v d = if class_exists d n then mkView 200 [n] [] else v_404.
+Proof. exact c11_class_show. Qed.
+Print Assumptions C11_class_show.
+
+(* below 1.6 / 1.2 these reads answer 404 in every state *)
+Theorem C11_names_unavailable :
+  forall d v, (v < 6 -> forall names assoc t, view (QTraits names assoc) v d = v_404 /\ view (QTrait t) v d = v_404) /\
+              (v < 2 -> forall n, view QClasses v d = v_404 /\ view (QClass n) v d = v_404).
+Proof. exact c11_names_unavailable. Qed.
+Print Assumptions C11_names_unavailable.
+
+(* read after write: after an accepted PUT /traits/{t} (201 created or 204 already there) the trait
+   reads 204, every listing whose name filter admits it contains it, and nothing reported about any
+   other trait has changed *)
+Theorem C11_read_after_write_trait_put :
+  forall cf d v t d' rs v',
+    step cf d (TraitPut v t) = (d', rs) -> is_success rs -> 6 <= v' ->
+    view (QTrait t) v' d' = mkView 204 [] [] /\
+    (forall names, names_ok names t -> In [t] (rv_rows (view (QTraits names None) v' d'))) /\
+    (forall t' names assoc, t' <> t ->
+       (In [t'] (rv_rows (view (QTraits names assoc) v' d')) <->
+        In [t'] (rv_rows (view (QTraits names assoc) v' d)))).
+Proof. exact c11_raw_trait_put. Qed.
+Print Assumptions C11_read_after_write_trait_put.
+
+(* ... after an accepted DELETE /traits/{t}: 404, in no listing under any filter, other traits untouched *)
+Theorem C11_read_after_write_trait_delete :
+  forall cf d v t d' rs v',
+    step cf d (TraitDelete v t) = (d', rs) -> is_success rs -> 6 <= v' ->
+    view (QTrait t) v' d' = v_404 /\
+    (forall names assoc, ~ In [t] (rv_rows (view (QTraits names assoc) v' d'))) /\
+    (forall t' names assoc, t' <> t ->
+       (In [t'] (rv_rows (view (QTraits names assoc) v' d')) <->
+        In [t'] (rv_rows (view (QTraits names assoc) v' d)))).
+Proof. exact c11_raw_trait_delete. Qed.
+Print Assumptions C11_read_after_write_trait_delete.
+
+(* ... after an accepted POST /resource_classes {"name": n}: 200 with the name, listed, others untouched *)
+Theorem C11_read_after_write_class_create :
+  forall cf d v n d' rs v',
+    step cf d (RcCreate v n) = (d', rs) -> is_success rs -> 2 <= v' ->
+    view (QClass n) v' d' = mkView 200 [n] [] /\ In [n] (rv_rows (view QClasses v' d')) /\
+    forall n', n' <> n -> view (QClass n') v' d' = view (QClass n') v' d.
+Proof. exact c11_raw_class_create. Qed.
+Print Assumptions C11_read_after_write_class_create.
+
+(* ... after an accepted body-less PUT /resource_classes/{n} (from 1.7: create if absent) *)
+Theorem C11_read_after_write_class_put :
+  forall cf d v n d' rs v',
+    step cf d (RcPut v n) = (d', rs) -> is_success rs -> 2 <= v' ->
+    view (QClass n) v' d' = mkView 200 [n] [] /\ In [n] (rv_rows (view QClasses v' d')) /\
+    forall n', n' <> n -> view (QClass n') v' d' = view (QClass n') v' d.
+Proof. exact c11_raw_class_put. Qed.
+Print Assumptions C11_read_after_write_class_put.
+
+(* ... after an accepted rename PUT /resource_classes/{old} {"name": new} (1.2 - 1.6): the new name
+   reads 200 and is listed, the old one (if different) reads 404 and is not listed, all other names
+   are untouched.  rcs_ok (Proofs/C19.v: ids and names of the custom rows unique, no standard name
+   among them) holds in every state the API can produce: C19.c19_ids_reachable *)
+Theorem C11_read_after_write_class_rename :
+  forall cf d v old new d' rs v',
+    C19.rcs_ok d -> v <= 6 -> step cf d (RcRename v old new) = (d', rs) -> is_success rs -> 2 <= v' ->
+    view (QClass new) v' d' = mkView 200 [new] [] /\ In [new] (rv_rows (view QClasses v' d')) /\
+    (old <> new -> view (QClass old) v' d' = v_404 /\ ~ In [old] (rv_rows (view QClasses v' d'))) /\
+    forall n', n' <> old -> n' <> new -> view (QClass n') v' d' = view (QClass n') v' d.
+Proof. exact c11_raw_class_rename. Qed.
+Print Assumptions C11_read_after_write_class_rename.
+
+(* ... after an accepted DELETE /resource_classes/{n}: 404, not listed, others untouched *)
+Theorem C11_read_after_write_class_delete :
+  forall cf d v n d' rs v',
+    C19.rcs_ok d -> step cf d (RcDelete v n) = (d', rs) -> is_success rs -> 2 <= v' ->
+    view (QClass n) v' d' = v_404 /\ ~ In [n] (rv_rows (view QClasses v' d')) /\
+    forall n', n' <> n -> view (QClass n') v' d' = view (QClass n') v' d.
+Proof. exact c11_raw_class_delete. Qed.
+Print Assumptions C11_read_after_write_class_delete.
 
 (* a request answered with an error changes no read *)
 Theorem C11_rejected_reads_unchanged :
